@@ -34,6 +34,7 @@ def run(ctx):
     ctx.rule("R-REG", "complete decision table by abstract interpretation equals the spec table")
     ctx.rule("R-SIB", "every filter list of the container is consulted")
     ctx.rule("R-FLOW", "operand provenance")
+    check_handwritten_serializers(ctx, f)
 
     # ---- C15.b decision tables ---------------------------------------------------
     cov = "Prefix::covers(self.prefix↓Some.0, MaxLenPrefix::prefix(origin.prefix))"
@@ -205,3 +206,32 @@ def run(ctx):
         ctx.ob("R-FLOW", "iter_payload:chains-all-three", ok,
                "iter_payload yields the payloads of all prefix, bgpsec and aspa assertions", where=ib.loc,
                detail={"value": r, "mapped": tp})
+
+
+def check_handwritten_serializers(ctx, f):
+    """A hand-written Serialize impl in slurm.rs writes every field from the value's own data and leaves a field out only
+    when that data is None — it does not decide by comparing values (a file must parse back to an equal value)."""
+    PLAIN = r"(self\.\w+|[\w:]+\(self\.\w+\))"
+    n = 0
+    for name, b in sorted(f.bodies.items()):
+        if not b.file.endswith("src/slurm.rs") or K.is_derived_body(b) or not name.endswith("Serialize>::serialize"):
+            continue
+        for c in b.calls():
+            if c.name != "serialize_field" or b.is_cleanup(c.bb):
+                continue
+            a = [K.alpha(x, b) for x in K.arg_renders(c)]
+            fld, val = a[1], a[2]
+            n += 1
+            guards = [g for g in K.dominating_guards(f, b, c.bb) if not g.startswith("discr(Try::branch(")]
+            m = re.match(r"^%s↓Some\.0$" % PLAIN, val)
+            if m:
+                src = val[:-len("↓Some.0")]
+                ok = guards == ["discr(%s) -> 1" % src]
+                what = "is written exactly when %s is Some, with that value" % src
+            else:
+                ok = not guards and re.search(r"self\.\w+", val) is not None and "filter" not in val
+                what = "is always written, from the value's own data"
+            ctx.ob("R-FLOW", "%s:field[%s]" % (short(K.root_fn_name(f, name)), fld.strip("b'")), ok,
+                   "%s: field %s %s" % (short(K.root_fn_name(f, name)), fld, what), where=c.where(),
+                   detail={"value": val, "conditions": guards})
+    ctx.floor("R-FLOW", "fields written by hand-written serializers in slurm.rs", n, 6)
